@@ -80,12 +80,12 @@ func genCompiledLayout(t *rapid.T) config {
 // ---------------------------------------------------------------- state machine
 
 type machine struct {
-	c    *core.Case
-	r    *runner
-	hist *history
-	dead bool  // a listed known finding was hit: the state is not trustworthy any more
-	big  int32 // upper bound for "huge" requests
-	skip0 bool // malloc(0) with fixed lists disabled is excluded (known finding)
+	c     *core.Case
+	r     *runner
+	hist  *history
+	dead  bool  // a listed known finding was hit: the state is not trustworthy any more
+	big   int32 // upper bound for "huge" requests
+	skip0 bool  // malloc(0) with fixed lists disabled is excluded (known finding)
 }
 
 // do executes one primitive op; false = stop issuing ops in this action.
